@@ -4,6 +4,7 @@
 EXTENDS DRexRates, SequencesExt
 CONSTANTS RotB,        \* bound on integer quaternion entries for the generic rotations
           NGen,        \* how many generic rotations to use (a deterministic slice), 0 = all
+          NOcta,       \* how many of the 24 axis-aligned rotations to use, 0 = all
           QCount,      \* how many frame rotations per case for the covariance lemma
           Multi        \* TRUE: also emit multi-grain aggregate cases
 VARIABLE st
@@ -21,35 +22,39 @@ Regimes == {4, 6}
 GenRots == GenericRots(RotB)
 \* deterministic slice of the generic rotations
 GenSeq == TLCEval(SetToSeq(GenRots))
+OctaSeq == TLCEval(SetToSeq(OctaRots))
 GenSlice(fab, L) == IF NGen = 0 THEN GenRots
                     ELSE LET n == Len(GenSeq) IN {GenSeq[((k * 7) % n) + 1] : k \in 1..NGen}
-OctaSeq == TLCEval(SetToSeq(OctaRots))
 FrameRots == {OctaSeq[((k * 5) % 24) + 1] : k \in 1..QCount}
 
 Init == \E fab \in Fabs, L \in Ls, rg \in Regimes : st = [phase |-> "go", fab |-> fab, L |-> L, regime |-> rg]
-SingleGrain == \E A \in OctaRots \cup GenSlice(st.fab, st.L) :
-      st' = [phase |-> "case", c |-> [fab |-> st.fab, regime |-> st.regime, L |-> st.L, As |-> <<A>>, f |-> <<QOne>>]]
+OctaSlice == IF NOcta = 0 THEN OctaRots ELSE {OctaSeq[((k * 7) % 24) + 1] : k \in 1..NOcta}
+SingleGrain == \E A \in OctaSlice \cup GenSlice(st.fab, st.L) :
+      LET c == [fab |-> st.fab, regime |-> st.regime, L |-> st.L, As |-> <<A>>, f |-> <<QOne>>]
+          ks == TLCEval(Kernels(c))
+      IN st' = [phase |-> "case", c |-> c, ks |-> ks, prog |-> TLCEval(CaseProgram(c, ks))]
 Vols == { <<<<1, 2>>, <<1, 2>>>>, <<<<1, 4>>, <<3, 4>>>>, <<QZ, QOne>>,
           <<<<1, 3>>, <<1, 3>>, <<1, 3>>>>, <<<<1, 12>>, <<1, 12>>, <<5, 6>>>>, <<<<1, 2>>, QZ, <<1, 2>>>> }
 MultiGrain == Multi /\ \E f \in Vols :
       LET n == Len(f)
           pick(g) == GenSeq[((g * 11 + Len(GenSeq) \div 3) % Len(GenSeq)) + 1]
           As == [g \in 1..n |-> pick(g)]
-      IN st' = [phase |-> "case", c |-> [fab |-> st.fab, regime |-> st.regime, L |-> st.L, As |-> As, f |-> f]]
+          c == [fab |-> st.fab, regime |-> st.regime, L |-> st.L, As |-> As, f |-> f]
+          ks == TLCEval(Kernels(c))
+      IN st' = [phase |-> "case", c |-> c, ks |-> ks, prog |-> TLCEval(CaseProgram(c, ks))]
 Next == st.phase = "go" /\ (SingleGrain \/ MultiGrain)
 Spec == Init /\ [][Next]_st
 
 \* ---- invariants
-Prog == CaseProgram(st.c)
-LemmasHold == st.phase = "case" => Prog.lemmas
+LemmasHold == st.phase = "case" => st.prog.lemmas
 \* C04 on the exact domain: covariance under frame rotations and crystal two-folds, all betas
 FrameLemma == (st.phase = "case" /\ Len(st.c.As) = 1) =>
-    LET A == st.c.As[1]  L == st.c.L  k == Kernel(st.c.fab, A, L) IN
+    LET A == st.c.As[1]  L == st.c.L  k == st.ks[1] IN
       /\ \A Qm \in FrameRots :
             Covariant(k, Kernel(st.c.fab, MEval(MMul(A, MT(Qm))), MEval(MMul(MMul(Qm, L), MT(Qm)))), Qm)
       /\ k.tie \/ \A Sd \in TwoFolds : TwoFold(k, Kernel(st.c.fab, MEval(SMat(Sd, A)), L), Sd)
 LemmaDebug == st.phase = "case" =>
-    LET k == Kernel(st.c.fab, st.c.As[1], st.c.L) IN
+    LET k == st.ks[1] IN
     (KernelLemmas(k) \/ PrintT(<<"LEMMAFAIL", st.c.fab, IsRotation(k.A), RolesArePermutation(k), SkewU(k.A, k.U), SkewV(k.A, k.V), R1Closed(k), PIsLinear(k.R2), k.dead, k.unresolved, k.R1, k.roles>>))
-Emit == st.phase = "case" => PrintT(<<"CASE", ToJson(Prog)>>)
+Emit == st.phase = "case" => PrintT(<<"CASE", ToJson(st.prog)>>)
 =============================================================================
